@@ -62,22 +62,26 @@ Fixpoint entries_ok (ttl : N) hist now (ms : list msg) (es : list (N * N * tdata
   | m :: ms', e :: es' => entry_ok ttl hist now m e && entries_ok ttl hist now ms' es'
   | _, _ => false      (* not one entry per message *)
   end.
-Fixpoint walk_ok (w ttl : N) (hist : list (N * tdata * N)) (evs : list bev) (outs : list bout) : bool :=
+Definition add_seen (seen : list N) (ms : list msg) : list N :=
+  fold_left (fun s m => if memN (m_id m) s then s else m_id m :: s) ms seen.
+(* seen: the distinct message ids asked for so far (a message waits at most once, so the queue is never longer) *)
+Fixpoint walk_ok (w ttl : N) (seen : list N) (hist : list (N * tdata * N)) (evs : list bev) (outs : list bout) : bool :=
   match evs, outs with
   | [], [] => true
   | BObserve ms now :: e', OObs r :: o' =>
       match r with
       | Done es => entries_ok ttl hist now ms es       (* answered at once, mirrored structure, ready-only, not expired *)
       | _ => false                                     (* blocked, or internal error *)
-      end && walk_ok w ttl hist e' o'
+      end && walk_ok w ttl (add_seen seen ms) hist e' o'
   | BReturn id (FOk d) now :: e', _ :: o' =>
-      walk_ok w ttl (if sup_ready d then (id, d, now) :: hist else hist) e' o'
-  | BTake _ :: e', OTake t f :: o' => t && f && walk_ok w ttl hist e' o'      (* only waiting messages, oldest call first *)
-  | BProbe :: e', OProbe q f :: o' => (N.eqb q 0 || N.leb w f) && walk_ok w ttl hist e' o'   (* no idle worker while messages wait *)
-  | _ :: e', _ :: o' => walk_ok w ttl hist e' o'
+      walk_ok w ttl seen (if sup_ready d then (id, d, now) :: hist else hist) e' o'
+  | BTake _ :: e', OTake t f :: o' => t && f && walk_ok w ttl seen hist e' o'      (* only waiting messages, oldest call first *)
+  | BProbe :: e', OProbe q f :: o' =>
+      (N.eqb q 0 || N.leb w f) && N.leb q (N.of_nat (length seen)) && walk_ok w ttl seen hist e' o'   (* no idle worker while messages wait *)
+  | _ :: e', _ :: o' => walk_ok w ttl seen hist e' o'
   | _, _ => false
   end.
 Definition bg_ok (i : bg_in) (o : bg_out) : bool :=
   let '(w, ttl, evs) := i in
-  walk_ok w ttl [] evs (fst o) && fst (snd o) && snd (snd o).
+  walk_ok w ttl [] [] evs (fst o) && fst (snd o) && snd (snd o).
 Definition bg_judge := judge bg_model bg_oeqb bg_ok (fun _ => 0%N).
